@@ -331,72 +331,71 @@ def run(ctx):
                 lo, hi = Fr(i, n), Fr(i + 1, n)
                 pieces[tuple(to_rat(x).key() for x in decasteljau(P, lo, hi))] = (tag, lo, hi)
 
-    def area_of(tag, lo, hi):
-        nm = '%s_%s_%s' % (tag, str(lo).replace('/', 'o'), str(hi).replace('/', 'o'))
-        return nm, (Rat.sym('xmax_' + nm) - Rat.sym('xmin_' + nm)) * (Rat.sym('ymax_' + nm) - Rat.sym('ymin_' + nm))
+    def box_of(tag, lo, hi, ab):
+        """concrete boxes realising one scenario: the roots overlap, of the four child pairs exactly (half ab[0] of the first curve,
+        half ab[1] of the second) overlap, no grandchildren overlap; all areas are distinct numbers"""
+        w = hi - lo
+        if w == 1:
+            return (0, 100, 0, 100 if tag == 'B1' else 50)
+        if w == Fr(1, 2):
+            half = int(lo * 2)
+            if tag == 'B1':
+                return (0, 1, 0, 1) if half == ab[0] else (10, 11, 0, 3)
+            return (0, 1, 0, 2) if half == ab[1] else (20, 21, 0, 4)
+        q = int(lo * 4)
+        base = 100 if tag == 'B1' else 200
+        return (base + 10 * q, base + 10 * q + 1, 0, 5 + q + (4 if tag == 'B2' else 0))
 
-    for j in range(4):
-        log = {'unknown': [], 'tests': []}
+    def area(box):
+        return Fr((box[1] - box[0]) * (box[3] - box[2]))
 
-        def bbox_hook(it, a, k, log=log):
+    for ab in ((0, 0), (0, 1), (1, 0), (1, 1)):
+        log = {'unknown': []}
+
+        def bbox_hook(it, a, k, log=log, ab=ab):
             key = tuple(to_rat(x).key() for x in it.iterate(a[0]))
             pc = pieces.get(key)
             if pc is None:
                 log['unknown'].append(key)
-                pc = ('UNK%d' % len(log['unknown']), Fr(0), Fr(1))
-            nm = area_of(*pc)[0]
-            return tuple(Rat.sym(s + nm) for s in ('xmin_', 'xmax_', 'ymin_', 'ymax_'))
-
-        def bi_hook(it, a, k, log=log, j=j):
-            nms = []
-            for box in a[:2]:
-                nms.append(to_rat(it.iterate(box)[0]).key().split('xmin_')[-1])
-            log['tests'].append(tuple(nms))
-            n = len(log['tests'])
-            return n == 1 or n == 2 + j        # the root pair and exactly the j-th child pair overlap
+                return (1000, 1001, 1000, 1001)
+            return tuple(Rat.const(v) for v in box_of(pc[0], pc[1], pc[2], ab))
 
         def th7(it, log=log):
             log['unknown'][:] = []
-            log['tests'][:] = []
             r = it.call(it.closure_of('bezier.bezier_intersections'), [list(B1), list(B2), Rat.sym('LL')], {'tol': Rat.sym('tol'), 'tol_deC': TOLD})
-            return list(r), list(log['unknown']), list(log['tests']), it
+            return list(r), list(log['unknown']), it
 
-        def judge7(v, j=j):
-            r, unknown, tests, it = v
+        def judge7(v, ab=ab):
+            r, unknown, it = v
             if unknown:
                 return False, 'a sub-curve is examined that is not a dyadic piece [i/2^k, (i+1)/2^k] of an input curve (wrong halving)'
-            if not tests:
-                return None, 'boxes_intersect / bezier_bounding_box were not called (solver restructured)'
-            byname = {}
-            for (tag, lo, hi) in pieces.values():
-                byname[area_of(tag, lo, hi)[0]] = (tag, lo, hi)
-            for n, (a, b) in enumerate(tests):
-                pa, pb = byname.get(a), byname.get(b)
-                if pa is None or pb is None or {pa[0], pb[0]} != {'B1', 'B2'}:
-                    return False, 'box test %d does not compare a piece of the first curve with a piece of the second' % n
             if len(r) > 1:
                 return False, 'one overlapping pair reported %d times' % len(r)
             for t1, t2 in r:
                 t1, t2 = to_rat(t1), to_rat(t2)
-                # which tested pair has these mid parameters?
                 hit = None
-                for a, b in tests:
-                    pa, pb = byname[a], byname[b]
-                    if pa[0] == 'B2':
-                        pa, pb = pb, pa
-                    if t1.equals(Rat.const((pa[1] + pa[2]) / 2)) and t2.equals(Rat.const((pb[1] + pb[2]) / 2)):
-                        hit = (pa, pb)
+                for pa in pieces.values():
+                    for pb in pieces.values():
+                        if pa[0] == 'B1' and pb[0] == 'B2' and pa[2] - pa[1] == pb[2] - pb[1] and \
+                                t1.equals(Rat.const((pa[1] + pa[2]) / 2)) and t2.equals(Rat.const((pb[1] + pb[2]) / 2)):
+                            hit = (pa, pb)
                 if hit is None:
-                    return False, 'reported (%s, %s) are not the mid parameters of a tested pair of pieces (t1 on the first curve, t2 on the second)' % (short(t1, 20), short(t2, 20))
+                    return False, ('reported (%s, %s) are not the mid parameters of a pair of pieces of equal depth (t1 on the first curve, t2 on the second)'
+                                   % (short(t1, 20), short(t2, 20)))
+                (pa, pb) = hit
+                w = pa[2] - pa[1]
+                if w == Fr(1, 2) and (int(pa[1] * 2), int(pb[1] * 2)) != ab:
+                    return False, 'a crossing is reported for the halves %s although their boxes are disjoint' % ((int(pa[1] * 2), int(pb[1] * 2)),)
+                if w == Fr(1, 4):
+                    return False, 'a crossing is reported for quarter pieces whose boxes are disjoint'
                 for pc in hit:
-                    sg = path_sign(it, area_of(*pc)[1] - TOLD)
+                    sg = path_sign(it, Rat.const(area(box_of(pc[0], pc[1], pc[2], ab))) - TOLD)
                     if sg != frozenset('-'):
                         return False, ('a crossing is reported without knowing that the box of the piece [%s, %s] of %s is smaller than tol_deC: '
                                        'its parameter is only known to +-%s' % (pc[1], pc[2], 'the first curve' if pc[0] == 'B1' else 'the second curve', (pc[2] - pc[1]) / 2))
             return True, ''
-        ob('R11.7').run(fbi, 'subdivision with the root pair and child pair %d overlapping' % j, th7, judge7, allowed_raises=('Exception',),
-                        opts={'call_hooks': {'bezier.bezier_bounding_box': bbox_hook, 'bezier.boxes_intersect': bi_hook,
-                                             'bezier.bezier_point': lambda it, a, k: Rat.csym('PT')},
+        ob('R11.7').run(fbi, 'subdivision: roots overlap, of the children only halves %s overlap' % (ab,), th7, judge7, allowed_raises=('Exception',),
+                        opts={'call_hooks': {'bezier.bezier_bounding_box': bbox_hook, 'bezier.bezier_point': lambda it, a, k: Rat.csym('PT')},
                               'ext_hooks': {'builtins.int': lambda it, a, k: 4, 'math.ceil': lambda it, a, k: Rat.sym('CEIL'),
                                             'math.log': lambda it, a, k: Rat.sym('LOG')},
                               'presign': [(TOLD, '+'), (Rat.sym('tol'), '+')]})
